@@ -1,4 +1,5 @@
 import CamVerif.Model.BitMask
+import CamVerif.Model.BitMaskStruct
 import Driver.Util
 namespace Driver.C02
 open CamVerif CamVerif.Reg CamVerif.BitMask CamVerif.Wire Driver
@@ -67,8 +68,51 @@ def handle : List String → String
     | _, _, _, _, _, _, _, _ => "bad-op"
   | _ => "bad-op"
 
+/-- one `StructEntry` of the request: `<form>:<lsb>:<msb>:<sign>` -/
+def parseEntry (t : String) : Option StructEntry :=
+  match t.splitOn ":" with
+  | [form, lsb, msb, s] =>
+    match parseMask form lsb msb, parseSign s with
+    | some bm, some s => some ⟨bm, s⟩
+    | _, _ => none
+  | _ => none
+
+def parseEntries (t : String) : Option (List StructEntry) :=
+  (t.splitOn ",").mapM parseEntry
+
+/-- `c02 s<op> <profile> <len> <e> <addr> <base> <img> <k> <entries> <arg>`: a whole `StructReg`;
+the expansion into MaskedIntReg nodes is done HERE by the model (`intoMaskedIntRegs`), then
+`<op>` runs on node number `k` -/
+def handleStruct : List String → String
+  | [op, p, len, e, addr, base, img, k, ents, arg] =>
+    match profileOf p, len.toInt?, parseEnd e, addr.toInt?, base.toInt?, hexToBytes img, k.toNat?, parseEntries ents with
+    | some p, some len, some e, some addr, some base, some img, some k, some ents =>
+      let sr : StructReg := ⟨addr, len, e, ents⟩
+      match sr.intoMaskedIntRegs[k]? with
+      | some node =>
+        let d : Dev := { mem := Mem.ofBytes base img }
+        let fin := finish base img.length
+        let port : Port := {}
+        if op == "smin" then fin (showRes (fun v => s!"ok {v.toInt}") (node.min p)) d
+        else if op == "smax" then fin (showRes (fun v => s!"ok {v.toInt}") (node.max p)) d
+        else if op == "svalue" then
+          let (r, d') := node.value p port d
+          fin (showRes (fun v => s!"ok {v.toInt}") r) d'
+        else if op == "sset" then
+          match arg.toInt? with
+          | some v =>
+            let (r, d') := node.setValue p port (BitVec.ofInt 64 v) d
+            fin (showRes (fun _ => "ok") r) d'
+          | none => "bad-op"
+        else "bad-op"
+      | none => "bad-op"
+    | _, _, _, _, _, _, _, _ => "bad-op"
+  | _ => "bad-op"
+
 end Driver.C02
 
 def main : IO Unit := Driver.runLoop fun
-  | "c02" :: rest => Driver.C02.handle rest
+  | "c02" :: op :: rest =>
+    if op.startsWith "s" && op != "set" then Driver.C02.handleStruct (op :: rest)
+    else Driver.C02.handle (op :: rest)
   | _ => "bad-op"
